@@ -224,3 +224,18 @@ pub fn parse_bundle(t: &mut Toks) -> Option<Bundle> {
     }
     Some(Bundle::new(p, cs))
 }
+
+/// `Bundle::crc_valid` asked three times on the same bundle: "T" / "F" when the answers agree and the check left the bundle
+/// as it was (a CHECK must not repair, re-stamp or otherwise change what it checks), "U" (unstable) otherwise.
+pub fn crc_valid_stable(b: &mut bp7::Bundle) -> &'static str {
+    let before = b.clone();
+    let v1 = b.crc_valid();
+    let unchanged = *b == before;
+    let v2 = b.crc_valid();
+    let v3 = b.crc_valid();
+    if v1 == v2 && v2 == v3 && unchanged && *b == before {
+        crate::proto::show_bool(v1)
+    } else {
+        "U"
+    }
+}
